@@ -3,6 +3,7 @@ package props
 import (
 	"context"
 	"fmt"
+	"strings"
 	"time"
 
 	jsonrpc "github.com/filecoin-project/go-jsonrpc"
@@ -131,4 +132,118 @@ func (c07) revSubReconnect(sc core.Scenario, r *core.R) {
 	r.Obs("streams", int64(pre+2))
 	r.Sig(core.Log.Signature())
 	r.Sample(map[string]interface{}{"scenario": "reverse subscription across a reconnect with late close of the old stream", "old_streams": pre + 1, "new_stream": oB.Val})
+}
+
+// mixedSizes: one stream whose elements alternate between a few bytes and more than a mebibyte, ending with
+// a large one right before the close. Order and completeness as for any stream.
+func (c07) mixedSizes(sc core.Scenario, r *core.R) {
+	env := NewEnv(EnvOpt{})
+	defer env.Shutdown()
+	pol := noisePolicy(sc)
+	defer pol.Install()()
+	cl, err := env.NewClient(ClientOpt{})
+	if err != nil {
+		r.Inconclusive("client: %v", err)
+		return
+	}
+	bg := context.Background()
+	n, big := 16, sc.I("kb")<<10
+	t := Tok("x")
+	ch, err := cl.SubMixed(bg, t, n, big)
+	if err != nil || ch == nil {
+		r.Inconclusive("subscribe: %v", err)
+		return
+	}
+	var idx []int
+	done := make(chan struct{})
+	go func() {
+		for v := range ch {
+			var i int
+			fmt.Sscanf(strings.TrimPrefix(v, t+":"), "%d", &i)
+			if !strings.HasPrefix(v, t+":") {
+				i = -1
+			}
+			if i%4 == 3 && len(v) < big {
+				i = -2 // truncated big element
+			}
+			idx = append(idx, i)
+		}
+		close(done)
+	}()
+	if !core.WaitCh(done, 3*core.Grace) {
+		r.Violate("stream-not-closed", "a stream of %d elements alternating between a few bytes and %d KiB did not complete", n, sc.I("kb"))
+		return
+	}
+	ok := len(idx) == n
+	for i, v := range idx {
+		if v != i {
+			ok = false
+		}
+	}
+	if !ok {
+		r.Violate("stream-reordered-or-lost", "a stream of %d elements alternating between a few bytes and %d KiB (every fourth, incl. the last) arrived as indices %v", n, sc.I("kb"), idx)
+	}
+	r.Key(fmt.Sprintf("mixed-sizes kb=%d", sc.I("kb")), true)
+	r.Obs("streams", 1)
+	r.Obs("values_received", int64(len(idx)))
+	r.Sig(core.Log.Signature())
+	r.Sample(map[string]interface{}{"scenario": "elements of mixed size in one stream", "big_element_kib": sc.I("kb"), "received": len(idx)})
+}
+
+// subBehindBig: subscriptions whose channels are ready at once are set up while a response of many write
+// buffers is being written on the same connection. Every stream is complete from its first value on.
+func (c07) subBehindBig(sc core.Scenario, r *core.R) {
+	env := NewEnv(EnvOpt{})
+	defer env.Shutdown()
+	pol := noisePolicy(sc)
+	defer pol.Install()()
+	cl, err := env.NewClient(ClientOpt{})
+	if err != nil {
+		r.Inconclusive("client: %v", err)
+		return
+	}
+	bg := context.Background()
+	rounds, per := 6, sc.I("subs")
+	bad := 0
+	for round := 0; round < rounds; round++ {
+		bt := Tok("b")
+		big := Go(bt, func() (string, error) { return cl.Big(bg, bt, sc.I("mb")<<20) })
+		env.Svc.WaitEntered(bt, core.Grace)
+		type st struct {
+			tok string
+			g   *got
+		}
+		var sts []st
+		for i := 0; i < per; i++ {
+			t := Tok("s")
+			ch, err := cl.Sub(bg, t, 40, svc.SPrefilled)
+			if err != nil || ch == nil {
+				r.Violate("subscribe-failed", "subscription set up while a %d MiB response is being written failed: %v", sc.I("mb"), err)
+				continue
+			}
+			sts = append(sts, st{t, drainItems(ch, 0, -1, nil)})
+		}
+		for _, x := range sts {
+			if !core.WaitCh(x.g.done, 2*core.Grace) {
+				bad++
+				r.Violate("stream-not-closed", "a prefilled stream subscribed while a %d MiB response was being written never closed (received %d of 40)", sc.I("mb"), x.g.n())
+				continue
+			}
+			before := r.Violated()
+			checkSeq(r, "sub-behind-big", x.tok, x.g.snapshot(), 40, true)
+			if r.Violated() && !before {
+				bad++
+			}
+		}
+		if !big.Wait(3*core.Grace) || big.Err != nil {
+			r.Violate("response-dropped", "the %d MiB response did not arrive: %v", sc.I("mb"), big.Err)
+		}
+		if bad > 0 {
+			break
+		}
+	}
+	r.Key(fmt.Sprintf("sub-behind-big mb=%d subs=%d", sc.I("mb"), per), true)
+	r.Obs("streams", int64(rounds*per))
+	r.Sig(core.Log.Signature())
+	r.Sample(map[string]interface{}{"scenario": "prefilled subscriptions set up while a large response is being written", "rounds": rounds, "subscriptions_per_round": per})
 }
